@@ -26,6 +26,8 @@ def run(ctx):
         # engine start-up failing half way (epoll_create1 / eventfd2 failed by strace): everything created so far is closed
         t = system.record(ctx, "start-faults", test="TestVerifStartFaults")
         system.validate(ctx, t, ["TrFd"], "engine start-up failing half way")
+        t = system.record(ctx, "register-faults", test="TestVerifRegisterFaults")
+        system.validate(ctx, t, ["TrFd"], "Register / Enroll / Dial with a failing dup")
     t = system.record(ctx, "client", test="TestVerifClient")
     system.validate(ctx, t, ["TrFd"], "client engine (Dial / Enroll), descriptor ledger")
     ctx.assumptions += system.SYS_ASSUME
